@@ -6,6 +6,8 @@
  P  publish into the shared free list (store / free / alloc / init through the guard of Mutex<Freelist>)
  K  built-in consistency check                  A / F  transaction-level allocate / free
  L  advisory file lock (lock_exclusive ...)     HDR  header read (header-selection role)
+ O  observation of the file's state through the handle (metadata / read)
+ SH any other shared database state changed (an atomic, or the content of another lock of DBInner)
 """
 from facts import callee_of, op_place, op_local, strip_generics, last_seg
 from flow import DefUse
@@ -19,6 +21,9 @@ W_PATHS = {'std::io::Write::write_all', 'std::io::Write::write', 'std::io::Write
 G_PATHS = {'fs4::FileExt::allocate', 'std::fs::File::set_len', 'fs4::fs_std::FileExt::allocate'}
 S_PATHS = {'std::fs::File::sync_all', 'std::fs::File::sync_data'}
 LOCK_PATHS = {'lock_exclusive', 'lock_shared', 'try_lock_exclusive', 'try_lock_shared', 'unlock', 'lock', 'try_lock'}
+O_PATHS = {'std::fs::File::metadata', 'std::io::Read::read', 'std::io::Read::read_exact', 'std::io::Read::read_to_end', 'std::io::Read::read_to_string',
+           'std::io::Read::read_vectored', 'std::os::unix::fs::FileExt::read_at', 'std::os::unix::fs::FileExt::read_exact_at',
+           'std::os::unix::prelude::FileExt::read_at', 'std::os::unix::prelude::FileExt::read_exact_at', 'std::io::Seek::stream_len'}
 MAP_PATHS = {'memmap2::MmapOptions::map', 'memmap2::Mmap::map', 'memmap2::MmapOptions::map_mut', 'memmap2::MmapMut::map_mut',
              'memmap2::MmapOptions::map_copy', 'memmap2::MmapOptions::map_copy_read_only', 'memmap2::MmapOptions::map_raw'}
 
@@ -70,6 +75,36 @@ class Events:
                     return True
         return False
 
+
+    KNOWN_SHARED = {'freelist', 'data', 'file', 'open_ro_txs', 'mmap_lock'}
+
+    def _shared_field(self, fn, local):
+        """name of the DBInner field whose content `local` (a pointer) refers to: directly (atomics, &self.field) or through the guard of a lock stored in that
+        field; None when it does not refer to shared database state"""
+        from flow import Prov
+        if not hasattr(self, '_prov'):
+            self._prov = {}
+        if fn.path not in self._prov:
+            self._prov[fn.path] = Prov(fn)
+        pv = self._prov[fn.path]
+        out = set()
+        for (adt, name) in pv.prov[local]:
+            if adt and last_seg(adt) == 'DBInner':
+                out.add(name)
+        if not out:
+            _, atoms = self.du(fn).slice_local(local)
+            for a in atoms:
+                if a[0] == 'call' and last_seg(strip_generics(a[2])) in ('lock', 'write', 'try_lock', 'try_write', 'get_mut', 'borrow_mut'):
+                    t = fn.term(a[1])
+                    if t['args']:
+                        l0 = op_local(t['args'][0])
+                        if l0 is not None:
+                            for (adt, name) in pv.prov[l0]:
+                                if adt and last_seg(adt) == 'DBInner':
+                                    out.add(name)
+        out -= self.KNOWN_SHARED
+        return sorted(out)[0] if out else None
+
     # ---- terminator events
     def classify(self, fn, bb, t, c, target):
         evs = []
@@ -99,6 +134,8 @@ class Events:
             evs.append(dict(ev='G', fallible=True, callee=sp))
         if path in S_PATHS:
             evs.append(dict(ev='S', fallible=True, callee=sp))
+        if (path in O_PATHS or rpath in O_PATHS) and is_file_callee(c):
+            evs.append(dict(ev='O', fallible=True, callee=sp))
         if c.get('trait', '').endswith('FileExt') and last_seg(sp) in LOCK_PATHS and 'fs4' in path:
             evs.append(dict(ev='L', fallible=True, callee=sp, method=last_seg(sp)))
         if sp in MAP_PATHS or (sp.startswith('memmap2::') and last_seg(sp).startswith('map')):
@@ -120,6 +157,19 @@ class Events:
                 l = op_local(a)
                 if l is not None and fn.locals[l]['ty'] == '&mut freelist::Freelist' and self._through_guard(fn, l, 'freelist::Freelist'):
                     evs.append(dict(ev='P', how=last_seg(sp), callee=sp))
+        # SH: any other shared (DBInner) state changed: atomics, or a mutable borrow of what another DBInner lock protects handed to a call
+        if t['args'] and not c.get('local'):
+            l = op_local(t['args'][0])
+            if l is not None:
+                ty = fn.locals[l]['ty']
+                nm = last_seg(sp)
+                atomic = 'std::sync::atomic::Atomic' in (st0 or ty) and nm in ('store', 'swap', 'compare_exchange', 'compare_exchange_weak', 'fetch_add', 'fetch_sub', 'fetch_max',
+                                                                                 'fetch_min', 'fetch_or', 'fetch_and', 'fetch_xor', 'fetch_update', 'fetch_nand')
+                mutref = ty.startswith('&mut') and nm not in ('deref_mut', 'deref', 'borrow_mut', 'as_mut', 'lock', 'unwrap', 'branch', 'drop', 'drop_in_place')
+                if atomic or mutref:
+                    fld = self._shared_field(fn, l)
+                    if fld is not None:
+                        evs.append(dict(ev='SH', field=fld, callee=sp, how=nm))
         rr = self._role('release-role')
         if rr is not None and (path == rr.path or rpath == rr.path) and t['args']:
             l = op_local(t['args'][0])
@@ -139,4 +189,8 @@ class Events:
                 evs.append(dict(ev='M', loc='%s:%d' % (s['span']['file'], s['span']['line'])))
             if ty == '&mut freelist::Freelist' and self._through_guard(fn, p['l'], 'freelist::Freelist'):
                 evs.append(dict(ev='P', how='store', loc='%s:%d' % (s['span']['file'], s['span']['line'])))
+            elif ty.startswith('&mut') and ty != '&mut std::sync::Arc<memmap2::Mmap>':
+                fld = self._shared_field(fn, p['l'])
+                if fld is not None:
+                    evs.append(dict(ev='SH', field=fld, how='store', callee='store', loc='%s:%d' % (s['span']['file'], s['span']['line'])))
         return evs
